@@ -2,6 +2,7 @@ package harness
 
 import (
 	"verifharness/sim"
+	"verifharness/worlds/blocks"
 	"verifharness/worlds/kv"
 	"verifharness/worlds/lock"
 	"verifharness/worlds/lru"
@@ -17,5 +18,6 @@ var worlds = map[string]worldDef{
 	"timer": {New: timer.New, Generate: timer.Generate},
 	"lock":  {New: lock.New, Generate: lock.Generate},
 	"kv":    {New: kv.New, Generate: kv.Generate},
+	"blocks": {New: blocks.New, Generate: blocks.Generate},
 	"lru":   {New: lru.New, Generate: lru.Generate},
 }
